@@ -315,7 +315,7 @@ def method_misuse(ob, case):
         'cat_ttm', 'cat_size_before', 'cat_size_after', 'cat_size_both', 'cat_order', 'pad_too_many', 'diag_not_tt', 'permute_not_tt', 'permute_len', 'permute_dup',
         'permute_range', 'reshape_count', 'reshape_ttm_rows', 'reshape_ttm_cols', 'reshape_ttm_swap', 'reshape_ttm_second', 'save_not_tt', 'random_bad_R', 'random_len_R', 'zeros_not_list', 'ones_not_list', 'amen_mv_types', 'amen_mv_kinds', 'amen_mv_shape',
         'amen_solve_types', 'amen_solve_kinds', 'amen_solve_square', 'amen_solve_shape', 'riemann_kinds',
-        'amen_mm_types', 'amen_mm_kinds', 'amen_mm_shape', 'amen_mm_order', 'cat_dim_range', 'cat_dim_negative', 'hadamard_types', 'hadamard_kinds', 'hadamard_order')],
+        'amen_mm_types', 'amen_mm_kinds', 'amen_mm_shape', 'amen_mm_order', 'cat_dim_range', 'cat_dim_negative', 'cat_single_dim_range', 'cat_single_ttm', 'cat_single_dim_type', 'hadamard_types', 'hadamard_kinds', 'hadamard_order')],
           expect='raise', replay='misuse')
 def function_misuse(ob, case):
     ex = ob.ex
@@ -493,6 +493,12 @@ def function_misuse(ob, case):
             B = ob.tt('B', 2, ttm=True)
             ex.assume(z3.Or(B.M_[0] != A.N_[0], B.M_[1] != A.N_[1]))
             ob.ret = ex.call(f, [A, B])
+    elif case == 'cat_single_dim_range':
+        ob.ret = ex.call(E('cat'), [(ob.tt('a', 3),), 3])            # a single operand does not make the axis valid
+    elif case == 'cat_single_ttm':
+        ob.ret = ex.call(E('cat'), [(ob.tt('a', 2, ttm=True),), 0])
+    elif case == 'cat_single_dim_type':
+        ob.ret = ex.call(E('cat'), [[ob.tt('a', 3)], 1.5])
     elif case in ('cat_dim_range', 'cat_dim_negative'):
         a = ob.tt('a', 2)
         b = ob.tt('b', 2, N=a.N_)
